@@ -314,7 +314,7 @@ struct WorldSI : World, Net {
     if (e.has("RELAYCLIENT")) { cf.relayclient = true; cf.relaysuffix = e.gets("RELAYCLIENT"); }
     if (e.has("DATABYTES")) cf.databytes = strtoull(e.gets("DATABYTES").c_str(), 0, 10);
     if (plan->knobs.has("qq")) { use_stub = true; const Json &q = plan->knobs["qq"]; qq_code = (int)q.geti("code", 0); qq_text = q.gets("text"); qq_read_all = q.getb("read_all", true); }
-    for (auto &f : plan->faults) if (f.actor.compare(0, 11, "qmail-smtpd") == 0 || f.actor.compare(0, 10, "qmail-qmtp") == 0 || f.actor.compare(0, 10, "qmail-qmqp") == 0) { if (plan->knobs.has("qq_open_fails_at") && (f.call == C_FORK || f.call == C_PIPE)) continue; daemon_fault = true; }
+    for (auto &f : plan->faults) if (f.actor.compare(0, 11, "qmail-smtpd") == 0 || f.actor.compare(0, 10, "qmail-qmtp") == 0 || f.actor.compare(0, 10, "qmail-qmqp") == 0) { if (plan->knobs.has("qq_open_fails_at") && (f.call == C_FORK || f.call == C_PIPE)) continue; if (f.kind == "short") continue;   /* a transfer that takes fewer bytes than offered is legal behaviour of the kernel, not a failure: everything is judged as usual */ daemon_fault = true; }
     cf.qq_open_fails_at = (int)plan->knobs.geti("qq_open_fails_at", 0);
   }
 
@@ -388,7 +388,8 @@ struct WorldSI : World, Net {
     Proc *p = e.proc; if (!p) return;
     if (e.pid == daemon_pid && e.call == C_EXIT) { daemon_done = true; daemon_status = (int)e.a; }
     if (e.pid == daemon_pid && e.call == C_WRITE && e.fd == 1 && e.ret > 0 && e.data) daemon_said.append(e.data, (size_t)e.ret);
-    if (e.pid == daemon_pid && e.injected && e.err != 0 && e.path.find("/control/") != std::string::npos && ctl_fault_at < 0) { ctl_fault_at = (int64_t)(queued.size() + stub_streams.size()); ctl_fault_said = daemon_said.size(); }
+    if (e.pid == daemon_pid && e.call == C_READ && e.fd == 0 && e.ret > 0) daemon_read_bytes += (size_t)e.ret;
+    if (e.pid == daemon_pid && e.injected && e.err != 0 && e.path.find("/control/") != std::string::npos && ctl_fault_at < 0) { ctl_fault_at = (int64_t)(queued.size() + stub_streams.size()); ctl_fault_said = daemon_said.size(); ctl_fault_read = daemon_read_bytes; }
     if (p->role == "qmail-queue" && e.call == C_LINK && e.ret == 0 && e.path2.find("/queue/todo/") != std::string::npos && e.ino) {
       QMsg m; const std::string &env = e.ino->data; size_t i = 0;
       while (i < env.size()) { size_t z = env.find('\0', i); if (z == std::string::npos) break; std::string r = env.substr(i, z - i); if (!r.empty() && r[0] == 'F') m.sender = r.substr(1); else if (!r.empty() && r[0] == 'T') m.rcpts.push_back(r.substr(1)); i = z + 1; }
@@ -403,6 +404,7 @@ struct WorldSI : World, Net {
     // acknowledgement without a message, which is what the property forbids; such messages are set aside.
     if (p->role == "qmail-queue" && e.call == C_EXIT && (e.a & 0x7f) != 0 && qq_commit.count(e.pid)) { queued[qq_commit[e.pid]].orphan = true; k->probe("queue_program_killed_after_commit"); }
   }
+  size_t daemon_read_bytes = 0, ctl_fault_read = 0;
   std::string daemon_said; size_t ctl_fault_said = 0;   // what the daemon has written to its client; how much of it before a control file turned out unreadable
   std::map<int, size_t> qq_commit; int64_t ctl_fault_at = -1;   // messages handed over before a control file turned out unreadable
 
@@ -479,9 +481,16 @@ struct WorldSI : World, Net {
     if (!c05 && !c07 && !c08) { res->nontrivial = !rx.empty() || !tx.empty(); if (!daemon_done) violate("C20.server-hung", daemon + " still running after the client went away"); Hash64 h9; h9.str(rx); res->state_hash = h9.get(); return; }
     // the daemon could not read its configuration (injected error on a control file): it must not serve a session on guesses -
     // nothing may be accepted into the queue
-    if (ctl_fault_at >= 0 && daemon == "smtpd") {   // ... and nothing may be answered positively either: a policy file that cannot be read is not an absent one (an absent rcpthosts means "relay for everybody")
-      std::string after = daemon_said.substr(std::min(ctl_fault_said, daemon_said.size())); bool at_line_start = ctl_fault_said == 0 || (ctl_fault_said <= daemon_said.size() && daemon_said[ctl_fault_said - 1] == '\n');
-      for (size_t q = 0; q + 3 <= after.size(); q++) if ((q == 0 ? at_line_start : after[q - 1] == '\n') && (after.compare(q, 3, "250") == 0 || after.compare(q, 3, "354") == 0)) { violate(c08 ? "C08.accepted-without-configuration" : "C07.accepted-without-configuration", "a control file could not be read, yet qmail-smtpd went on to answer \"" + printable(after.substr(q, 40)) + "\""); return; } }
+    if (ctl_fault_at >= 0 && daemon == "smtpd") {
+      // ... and nothing more may be answered positively either: a policy file that cannot be read is not an absent one (an absent rcpthosts
+      // means "relay for everybody"). Replies are buffered, so what is written after the failure may still answer commands handled before
+      // it - at most as many as the daemon had read and not yet answered, less the one it was working on.
+      auto finals = [](const std::string &t2, bool positive_only) { size_t n = 0, i = 0; while (i < t2.size()) { size_t e2 = t2.find('\n', i); if (e2 == std::string::npos) break; if (e2 - i >= 4 && t2[i + 3] == ' ' && (!positive_only || t2[i] == '2' || t2[i] == '3')) n++; i = e2 + 1; } return n; };
+      size_t cut = std::min(ctl_fault_said, daemon_said.size()); while (cut > 0 && daemon_said[cut - 1] != '\n') cut--;   // (a reply line cut in two by the write belongs to "after")
+      size_t answered_before = finals(daemon_said.substr(0, cut), false); size_t commands_read = 0; { std::string seen = tx.substr(0, std::min(ctl_fault_read, tx.size())); for (char c : seen) if (c == '\n') commands_read++; }
+      size_t owed = commands_read + 1 /* the greeting */ > answered_before + 1 /* the command being worked on */ ? commands_read + 1 - answered_before - 1 : 0;
+      size_t positive_after = finals(daemon_said.substr(cut), true);
+      if (positive_after > owed) { violate(c08 ? "C08.accepted-without-configuration" : "C07.accepted-without-configuration", "a control file could not be read when qmail-smtpd had read " + std::to_string(commands_read) + " command lines and answered " + std::to_string(answered_before) + " times; afterwards it still gave " + std::to_string(positive_after) + " positive replies: \"" + printable(daemon_said.substr(cut), 120) + "\""); return; } }
     if (ctl_fault_at >= 0) { res->nontrivial = true; k->probe("smtpd_control_read_error"); if ((int64_t)(queued.size() + stub_streams.size()) > ctl_fault_at) violate(c08 ? "C08.accepted-without-configuration" : "C07.accepted-without-configuration", "a control file could not be read but qmail-smtpd afterwards handed a message to the queue; server said \"" + printable(rx, 200) + "\""); return; }
     if (daemon_fault) return;   // faults inside the daemon: only memory safety and "no partial message" (below) are judged elsewhere
     ModelOut M; model_smtp(cf, tx, stalls, use_stub ? qq_code : 0, qq_text, M);
